@@ -12,12 +12,21 @@ pub const BASE_SECS: i64 = 1_000_000;
 static OFFSET_NS: AtomicU64 = AtomicU64::new(0);
 static VIRTUAL: AtomicBool = AtomicBool::new(true);
 static QUERIES: AtomicU64 = AtomicU64::new(0);
+static STEP_NS: AtomicU64 = AtomicU64::new(0);
+
+/// Make every clock reading advance the virtual clock by `ns` (0 = frozen between explicit advances).
+#[allow(dead_code)]
+pub fn set_step_ns(ns: u64) {
+    STEP_NS.store(ns, Ordering::Relaxed);
+}
 
 #[no_mangle]
 pub unsafe extern "C" fn clock_gettime(clk: libc::clockid_t, ts: *mut libc::timespec) -> libc::c_int {
     if clk == libc::CLOCK_MONOTONIC && VIRTUAL.load(Ordering::Relaxed) {
         QUERIES.fetch_add(1, Ordering::Relaxed);
-        let off = OFFSET_NS.load(Ordering::Relaxed);
+        // optional: every reading of the clock takes some (virtual) time
+        let step = STEP_NS.load(Ordering::Relaxed);
+        let off = if step == 0 { OFFSET_NS.load(Ordering::Relaxed) } else { OFFSET_NS.fetch_add(step, Ordering::Relaxed) + step };
         (*ts).tv_sec = BASE_SECS + (off / 1_000_000_000) as i64;
         (*ts).tv_nsec = (off % 1_000_000_000) as i64;
         return 0;
